@@ -387,6 +387,15 @@ def search_sequence_orders(chk, r, thorough):
 def run(tier):
     chk = common.Check("C14", tier)
     thorough = tier == "thorough"
+    # census of the memo tables of the code base, regenerated from the syntax trees
+    try:
+        from .. import translate_memo
+
+        sites = translate_memo.regenerate()
+        chk.obligation("memo-census-translated", len(sites) > 0, "; ".join(f"{s_['where'].split('.')[-1]}: {s_['table']}[{s_['key']}]" for s_ in sites))
+        chk.extra["memo_sites"] = sites
+    except Exception as e:  # noqa
+        chk.obligation("memo-census-translated", False, f"{type(e).__name__}: {e}"[:300])
     common.lean_proof_step(chk, "YadismModel.Properties.C14", thorough=thorough)
     r = common.rng("C14")
     corr_cache(chk, r, 400 if thorough else 60)
@@ -398,5 +407,6 @@ def run(tier):
     chk.assumptions += [
         "an ESF object's result is a deterministic function of (observable, x, Q2, class) and the run configuration: hidden state inside numba/LeProHQ/scipy and the memo tables of pure functions (sv operators, n3lo interpolators) are outside the model; the bit-exact comparison of real runs is what would expose them",
         "requests are well formed (dicts contain x and Q2); a request lacking one is a caller error",
+        "memo tables: the census (harness/translate_memo.py, regenerated each run) finds every table a function of src/yadism fills and looks up, and every 'computed' flag; Lean decides that for each of them whatever the miss branch reads is in the key or an attribute assigned in __init__ only (memo_keys_cover_deps), pins the list of tables and keys (memo_census) and proves that a covered table is transparent for every history (covered_site_is_transparent). The analysis is syntactic: a key that mentions a name is taken to determine it (F13 was of that kind: seen by the get_esf_histories tie, not by the census); stores into an object's attributes from outside its class, and hidden state of compiled libraries, are not seen",
     ]
     return chk
